@@ -328,6 +328,16 @@ func hCase(h hJSON) (string, error) {
 	return "{| h_answers := " + coqfmt.List("(option (list N) * option (list N))", parts) + " |}", nil
 }
 
+// ---------------------------------------------------------------- D2a: flag syntax
+func kCase(v string) string {
+	p, err := forwarder.ParseHostPortPair(v)
+	out := "None"
+	if err == nil {
+		out = "(Some " + coqRule(p) + ")"
+	}
+	return fmt.Sprintf("{| k_in := %s; k_out := %s |}", cs(v), out)
+}
+
 // ---------------------------------------------------------------- D2b: the Dialer
 type dJSON struct {
 	Kind     string      `json:"kind"`
@@ -973,6 +983,41 @@ func main() {
 	}
 	m.Counts["rcases"] = ss.write("rcases", "rcase", "rcase_model_ok", "rcase_prop_ok", rc, rj)
 
+	// ---- D2a: the syntax of a --connect-to value
+	{
+		kLen, nK := 3, 800
+		if thorough {
+			kLen, nK = 5, 20000
+		}
+		kin := enumStrings([]string{"a", "f", "1", ":", "[", "]", ".", "-"}, kLen)
+		hostsK := []string{"", "a.test", "b-c.test", "10.0.0.1", "[::1]", "::1", "[fe80::1]", "abc", "1.2", "f00d", "[a.test]", "a_b", "-a", "a-", "a..b", "*", "[", "]", "256.1.1.1", "dead:beef", "[::ffff:1.2.3.4]"}
+		portsK := []string{"", "80", "0", "65535", "65536", "080", "8a"}
+		for _, a := range hostsK {
+			for _, bp := range portsK[:4] {
+				for _, c := range hostsK {
+					kin = append(kin, a+":"+bp+":"+c+":"+portsK[(len(a)+len(c))%len(portsK)])
+				}
+			}
+		}
+		for i := 0; i < nK; i++ {
+			v := r.Pick(hostsK) + ":" + r.Pick(portsK) + ":" + r.Pick(hostsK) + ":" + r.Pick(portsK)
+			if r.Chance(1, 3) {
+				v = mutate(r, v, []string{":", "[", "]", "a", "1", "."})
+			}
+			kin = append(kin, v)
+		}
+		var kc []string
+		var kj []any
+		for _, v := range kin {
+			kc = append(kc, kCase(v))
+			kj = append(kj, map[string]string{"kind": "flag", "in": v})
+			if _, err := forwarder.ParseHostPortPair(v); err == nil {
+				m.Dist["flag_accepted"]++
+			}
+		}
+		m.Counts["kcases"] = ss.write("kcases", "kcase", "kcase_model_ok", "kcase_prop_ok", kc, kj)
+	}
+
 	// ---- D2b: the Dialer itself with arbitrary outcome patterns
 	{
 		nD := 600
@@ -1562,6 +1607,12 @@ func doReplay(path string, ss *shardSet, m *meta) {
 		}
 		c := fmt.Sprintf("{| lc_aliases := %s; lc_idna := %s; lc_host := %s; lc_out := %s |}", coqfmt.StrList(aliases), idnaT, cs(j.Host), coqfmt.Bool(rg.hp.VerifC05IsLocalhost(j.Host)))
 		m.Counts["lcases"] = ss.write("lcases", "lcase", "lcase_model_ok", "lcase_prop_ok", []string{c}, []any{map[string]any{"kind": "localhost", "host": j.Host, "aliases": aliases}})
+	case "flag":
+		var j struct {
+			In string `json:"in"`
+		}
+		json.Unmarshal(data, &j)
+		m.Counts["kcases"] = ss.write("kcases", "kcase", "kcase_model_ok", "kcase_prop_ok", []string{kCase(j.In)}, []any{map[string]string{"kind": "flag", "in": j.In}})
 	case "dialer":
 		var j dJSON
 		json.Unmarshal(data, &j)
